@@ -341,24 +341,43 @@ def search(ctx):
             s = ctx.rng.choice([5, 9, 14])
             B = components_graph(ctx.rng, [s])
             kernel_partitions(ctx, B, np.array(graphs.weights(ctx.rng, s)))
-    if ctx.tier == "thorough":
-        # multiprocessing on: spawn pool once
-        from pyunicorn.core.network import Network
-        A = components_graph(ctx.rng, [9])
-        net = Network(adjacency=A, silence_level=3)
+    # multiprocessing on: the target set is split over cpu_count() workers,
+    # so a lost remainder shows only with more targets than workers and a
+    # target count that the worker count does not divide
+    from multiprocessing import cpu_count
+    from pyunicorn.core.network import Network
+    ncpu = cpu_count()
+    sizes = [2 * ncpu + 3]
+    if ctx.tier == "thorough" or ctx.scale > 1:
+        sizes += [9, ncpu + 1, 3 * ncpu - 1]
+    for n in sizes:
+        A = components_graph(ctx.rng, [n])
+        w = np.array(graphs.weights(ctx.rng, n))
+        net = Network(adjacency=A, node_weights=w, silence_level=3)
+        ctx.evaluations += 1
+        ctx.stat("multiprocessing split")
         a = net.nsi_betweenness()
         b = net.nsi_betweenness(parallelize=True)
         if not same(a, b):
             ctx.violation("Network.nsi_betweenness(parallelize=True)",
-                          "differs from the serial result", {"A": A.tolist()},
-                          {})
+                          "differs from the serial result",
+                          {"A": A.tolist(), "w": w.tolist(),
+                           "parallelize": True, "cpus": ncpu}, {})
+            break
 
 
 def replay(ctx, rep):
     c = rep["case"]
     A = np.array(c["A"])
     w = np.array(c["w"])
-    if "cuts" in c or rep["where"].startswith("_"):
+    if c.get("parallelize"):
+        from pyunicorn.core.network import Network
+        net = Network(adjacency=A, node_weights=w, silence_level=3)
+        if not same(net.nsi_betweenness(),
+                    net.nsi_betweenness(parallelize=True)):
+            ctx.violation("Network.nsi_betweenness(parallelize=True)",
+                          "differs from the serial result", c, {})
+    elif "cuts" in c or rep["where"].startswith("_"):
         kernel_partitions(ctx, A, w)
     else:
         run_case(ctx, A, w, [len(A)])
